@@ -12,9 +12,13 @@ Nothing here refers to how Xalan matches.
 -/
 namespace XalanModel.C09
 
-/-- node tests of the pattern grammar (names are unprefixed; documents carry no namespaces) -/
+/-- node tests of the pattern grammar.  A node's `name` in the document table is its *expanded* name: `local` when it
+is in no namespace, `{uri}local` otherwise. -/
 inductive Test where
-  | name (s : String)      -- NCName
+  | name (s : String)      -- NCName: an unprefixed name; selects names in *no* namespace (the default namespace
+                           --   never applies to patterns / expressions)
+  | qname (pfx uri loc : String)   -- pfx:loc, the prefix being bound to `uri`
+  | nsAny (pfx uri : String)       -- pfx:*
   | any                    -- *
   | text | comment | pi    -- text() comment() processing-instruction()
   | piLit (s : String)     -- processing-instruction('s')
@@ -40,6 +44,8 @@ structure Step where
   attrAxis : Bool          -- `@`/attribute::  (otherwise child::)
   test : Test
   preds : List Pred
+  /-- the axis is spelled out (`child::name`, `attribute::name`) instead of abbreviated (`name`, `@name`) -/
+  explicit : Bool := false
 deriving DecidableEq, Repr, Inhabited
 
 inductive Sep where
@@ -64,6 +70,10 @@ structure FnPath where
   steps : List (Sep × Step)
 deriving DecidableEq, Repr, Inhabited
 
+/-- the same step / path with every axis abbreviated -/
+def Step.abbrev (s : Step) : Step := { s with explicit := false }
+def Path.abbrev (p : Path) : Path := { p with steps := p.steps.map fun x => (x.1, x.2.abbrev) }
+
 /-- Pattern ::= LocationPathPattern ('|' LocationPathPattern)* -/
 abbrev Pattern := List Path
 
@@ -80,6 +90,8 @@ def Path.valid (p : Path) : Bool :=
 
 def Test.render : Test → String
   | .name s => s
+  | .qname pfx _ loc => pfx ++ ":" ++ loc
+  | .nsAny pfx _ => pfx ++ ":*"
   | .any => "*"
   | .text => "text()"
   | .comment => "comment()"
@@ -101,7 +113,8 @@ def Pred.render : Pred → String
   | .notAttr x => "[not(@" ++ x ++ ")]"
 
 def Step.render (s : Step) : String :=
-  (if s.attrAxis then "@" else "") ++ s.test.render ++ String.join (s.preds.map Pred.render)
+  (if s.explicit then (if s.attrAxis then "attribute::" else "child::") else (if s.attrAxis then "@" else "")) ++
+    s.test.render ++ String.join (s.preds.map Pred.render)
 
 def Sep.render : Sep → String
   | .child => "/"
@@ -126,6 +139,8 @@ namespace Spec
 def testOK (d : Doc) (attrAxis : Bool) (t : Test) (m : Nat) : Bool :=
   match t with
   | .name s => d.kind m == (if attrAxis then Kind.attr else Kind.elem) && d.name m == s
+  | .qname _ uri loc => d.kind m == (if attrAxis then Kind.attr else Kind.elem) && d.name m == "{" ++ uri ++ "}" ++ loc
+  | .nsAny _ uri => d.kind m == (if attrAxis then Kind.attr else Kind.elem) && ("{" ++ uri ++ "}").isPrefixOf (d.name m)
   | .any => d.kind m == (if attrAxis then Kind.attr else Kind.elem)
   | .text => d.kind m == .text
   | .comment => d.kind m == .comment
